@@ -1,5 +1,6 @@
 """C19 — completion vs cancellation races have one winner in the cancel wrappers
 (cancellable/try_complete, detach_on_cancel, canary, stop_on_request)."""
+import os
 from ..atomic import AtomicPart
 from ..runner import run_check
 
@@ -32,6 +33,10 @@ def run(tier, seed, replay=None):
         AtomicPart("stop_on_request", SCN, LIB, "stoponrequest", SOR),
         AtomicPart("create_raw_sender", SCN, LIB, "cancellable", RAW, std="gnu++20"),
     ]
+    # debugging aid (mutation experiments): VERIF_C19_PARTS=cancellable,canary runs only those parts
+    only = [x for x in os.environ.get("VERIF_C19_PARTS", "").split(",") if x]
+    if only:
+        parts = [p for p in parts if p.name in only]
     return run_check(
         "C19", tier, seed, PROP_MODULES, parts,
         rule="every schedule (DFS, preemption-bounded, plus random/PCT walks) of 15 scenarios on the real cancellable<>/try_complete, "
